@@ -109,8 +109,13 @@ def run(ctx):
     ctx.rule("F4a", "PerformedPart.note_array: as many dtype fields as values per row, and from_note_array reads only fields that exist")
     na = prog.func(f"{P}:PerformedPart.note_array", "F4a")
     ctx.touch(na)
-    fields = [n for n in own_nodes(na.node) if isinstance(n, ast.Assign) and norm(n.targets[0]) == "fields" and isinstance(n.value, ast.List)]
-    rows = [n for n in own_nodes(na.node) if isinstance(n, ast.Call) and norm(n.func).endswith(".append") and n.args and isinstance(n.args[0], ast.Tuple)]
+    built = [n for n in own_nodes(na.node) if isinstance(n, ast.Call) and norm(n.func) in ("np.array", "numpy.array") and n.args and isinstance(n.args[0], ast.Name)
+             and any(k.arg == "dtype" and isinstance(k.value, ast.Name) for k in n.keywords)]
+    ctx.require(len(built) == 1, "F4a", na.qname, "np.array(<rows>, dtype=<fields>) not found")
+    fvar = next(k.value.id for k in built[0].keywords if k.arg == "dtype")
+    rvar = built[0].args[0].id
+    fields = [n for n in own_nodes(na.node) if isinstance(n, ast.Assign) and norm(n.targets[0]) == fvar and isinstance(n.value, ast.List)]
+    rows = [n for n in own_nodes(na.node) if isinstance(n, ast.Call) and norm(n.func) == f"{rvar}.append" and n.args and isinstance(n.args[0], ast.Tuple)]
     ctx.require(len(fields) == 1 and len(rows) == 1, "F4a", na.qname, "fields list / row tuple not found")
     names = [e.elts[0].value for e in fields[0].value.elts]
     k = len(rows[0].args[0].elts)
@@ -120,7 +125,8 @@ def run(ctx):
     ctx.touch(fa)
     read = set()
     for n in own_nodes(fa.node):
-        if isinstance(n, ast.Subscript) and isinstance(n.slice, ast.Constant) and isinstance(n.slice.value, str) and norm(n.value) in ("note", "note_array"):
+        if isinstance(n, ast.Subscript) and isinstance(n.slice, ast.Constant) and isinstance(n.slice.value, str) and isinstance(n.value, ast.Name) \
+                and isinstance(n.ctx, ast.Load):
             read.add(n.slice.value)
     ctx.check(read <= set(names) and {"pitch", "onset_sec", "duration_sec", "velocity"} <= read, "F4a", f"from_note_array reads {sorted(read)}", func=fa,
               construct="from_note_array-fields", msg=f"from_note_array reads {sorted(read - set(names))} which note_array does not produce "
